@@ -34,6 +34,7 @@ def run_property(prop, tier, model=None, write=True, quiet=False):
         elif model.form != form:
             raise AnalysisError('%s reads the %s tree but was handed the %s one' % (prop, form, model.form))
         rep.tree_form = form
+        rep.strict = model.pinned()
         pm.run(model, rep, tier)
         if tier == 'thorough' and write:
             # the tree verdict above is complete; the adequacy run and the package-wide cross-reference lints only add
@@ -53,6 +54,11 @@ def run_property(prop, tier, model=None, write=True, quiet=False):
         return code, rep
     except AnalysisError as e:
         # a tree verdict reached so far is reported first, so that a violation is never masked by exit 2
+        if not getattr(rep, 'strict', True) and not str(e).startswith('anchor vanished'):
+            # the tree differs from the one the instance tables were confirmed on and a rule could not locate its instance:
+            # the code was restructured there.  What was recognised up to this point has been judged; the rest is undecided.
+            rep.undecided('%s -- the remaining rules of this check were not evaluated on this tree' % e)
+            return rep.finalize(write=write), rep
         code = rep.finalize(write=write) if rep.violations() else 0
         if not quiet:
             print('ANALYSIS-ERROR property=%s %s' % (prop, e))
